@@ -523,6 +523,9 @@ impl<'w> PoolSim<'w> {
 			Submit::UnderFee => {
 				if let Some(x) = free.first().cloned() {
 					expect = Some(false);
+					if self.pool.total_size() > self.pool.config.max_pool_size {
+						self.probe("underfee_submitted_at_capacity");
+					}
 					let fee = Self::plain_fee(1, 1).saturating_sub(1 + rng.below(1000)).max(1);
 					self.make_spend(&[x], 1, fee, None, &mut rng)
 				} else {
@@ -755,9 +758,20 @@ pub fn gen_ops(rng: &mut SimRng, thorough: bool) -> Vec<Op> {
 		} else if k < 95 {
 			Op::Reorg { depth: rng.range(1, 3), r: rng.next_u64() }
 		} else {
-			Op::ShrinkCapacity { to: rng.range(1, 4) as usize }
+			Op::ShrinkCapacity { to: rng.range(0, 4) as usize }
 		};
 		ops.push(op);
+	}
+	// a full pool must not relax admission: somewhere in the second half the capacity drops below
+	// the current size and an under-fee fluff transaction (and a valid one, which evicts) follow
+	let at = (ops.len() / 2 + rng.usize_below(ops.len() / 2 + 1)).min(ops.len());
+	let tail = vec![
+		Op::ShrinkCapacity { to: rng.range(0, 1) as usize },
+		Op::Submit { kind: Submit::UnderFee, stem: false, r: rng.next_u64() },
+		Op::Submit { kind: Submit::Valid, stem: false, r: rng.next_u64() },
+	];
+	for (i, op) in tail.into_iter().enumerate() {
+		ops.insert(at + i, op);
 	}
 	ops
 }
